@@ -19,7 +19,10 @@ Import ListNotations.
 Inductive op :=
 | OBuild (w : bool)              (* LLParser(tok, productions=D, smart_factorization=w): (re)binds object w *)
 | OAmb (w : bool)                (* object w .is_ambiguous() *)
-| OParse (w : bool) (i : nat).   (* object w .parse(text of input i) *)
+| OParse (w : bool) (i : nat)    (* object w .parse(text of input i) *)
+| OParseFrom (w : bool) (i : nat) (s : sym).
+                                 (* object w .parse(text of input i, start_symbol_name=s): the debugging aid that
+                                    parses a fragment from another symbol; it must not redirect later parse() calls *)
 
 Inductive obs :=
 | BBuilt (e : option err)        (* the constructor returned / raised e *)
@@ -38,6 +41,13 @@ Definition set_obj (W : world) (w : bool) (p : option parser) : world :=
 Definition m_is_ambiguous (p : parser) : parser * bool := (p, is_ambiguous (p_tables p)).
 Definition m_parse (p : parser) (fuel : nat) (toks : list token) : parser * res tree :=
   (p, p_parse p fuel toks).
+(* parse(text, start_symbol_name=s): `assert s in self.prods_map`, then the same loop from ($START$ -> s $END$) *)
+Definition p_parse_from (p : parser) (fuel : nat) (s : sym) (toks : list token) : res tree :=
+  if mem s (gkeys (p_grammar p))
+  then parse (fun x => mem x (p_terminals p)) (table_get (p_tables p)) (p_sfxs p) toks fuel s
+  else Err AssertErr.
+Definition m_parse_from (p : parser) (fuel : nat) (s : sym) (toks : list token) : parser * res tree :=
+  (p, p_parse_from p fuel s toks).
 
 Section Session.
   Variable ug : list (sym * list (list sym)).     (* the productions dict (shared by all constructor calls) *)
@@ -62,6 +72,12 @@ Section Session.
         match get_obj W w, nth_error inputs i with
         | Some p, Some inp =>
             let '(p', r) := m_parse p fuel (mk_toks inp) in (set_obj W w (Some p'), BParse r)
+        | _, _ => (W, BNone)
+        end
+    | OParseFrom w i s =>
+        match get_obj W w, nth_error inputs i with
+        | Some p, Some inp =>
+            let '(p', r) := m_parse_from p fuel s (mk_toks inp) in (set_obj W w (Some p'), BParse r)
         | _, _ => (W, BNone)
         end
     end.
